@@ -68,6 +68,10 @@ type Exec struct {
 	specNames       map[*Term]*Term
 	usedLemmas      []string
 	lastResults     []replayParam
+	frameCache      *frameSpec
+	condLock        map[*Term]Value
+	protKeys        map[string]bool
+	callOrd         map[ssa.Instruction]string
 }
 
 func NewExec(p *Program, fn *ssa.Function, fc *FuncContract) *Exec {
@@ -80,7 +84,7 @@ func NewExec(p *Program, fn *ssa.Function, fc *FuncContract) *Exec {
 		loopInfo: map[*ssa.Function]*loopAnalysis{}, siteOrd: map[string]int{}, siteName: map[ssa.Instruction]string{},
 		maxPaths: 20000, Inputs: map[string]*Term{}, ParamVals: map[string]Value{},
 		calledExterns: map[string]bool{}, calledContracts: map[string]bool{}, inlined: map[string]bool{},
-		unwound: map[string]bool{}, postSeen: map[string]int{}}
+		unwound: map[string]bool{}, postSeen: map[string]int{}, condLock: map[*Term]Value{}}
 }
 
 func (x *Exec) noteSym(t *Term) { x.syms = append(x.syms, t) }
@@ -316,6 +320,9 @@ func (x *Exec) load(st *State, p Value, ty types.Type, ins ssa.Instruction) Valu
 			return v
 		case q.Ref != nil:
 			x.nilCheck(st, q.Ref, ins)
+			if ins != nil {
+				x.heldCheck(st, q, ins, false)
+			}
 			return st.heapLoad(q.Ref, q.Root, ty)
 		case q.Arr != nil:
 			return st.memLoad(q.Arr, q.Idx, ty)
@@ -355,7 +362,14 @@ func (x *Exec) store(st *State, p Value, ty types.Type, v Value, ins ssa.Instruc
 		case q.Ref != nil:
 			x.nilCheck(st, q.Ref, ins)
 			x.heldCheck(st, q, ins, true)
+			var before *State
+			if _, _, prot := x.protectedBy(st, q); prot {
+				before = st.snapshot()
+			}
 			st.heapStore(q.Ref, q.Root, ty, v)
+			if before != nil {
+				x.afterProtectedWrite(st, before, q, ins)
+			}
 			return
 		case q.Arr != nil:
 			st.memStore(q.Arr, q.Idx, ty, v)
@@ -496,6 +510,13 @@ func (x *Exec) atLoopHead(st *State, la *loopAnalysis, head, from *ssa.BasicBloc
 			g := x.evalBool(env, c.Expr)
 			x.oblige(st, "inv-preserve", label+":"+clauseLabel(c, i), g, c.Text, head.Instrs[0], c.Props)
 		}
+		for i, c := range spec.Steps {
+			g := x.evalBool(env, c.Expr)
+			x.oblige(st, "step", label+":"+clauseLabel(c, i), g, c.Text, head.Instrs[0], c.Props)
+		}
+		if le := st.InLoop[head]; le != nil && le.snap != nil && f.Fn == x.Fn && f.Caller == nil {
+			x.checkFrameAgainst(st, le.snap, "inv-preserve", label+":frame:", head.Instrs[0])
+		}
 		if spec.Decreases != nil {
 			if le := st.InLoop[head]; le != nil && le.decr != nil {
 				cur := x.evalIdx(env, spec.Decreases.Expr)
@@ -515,7 +536,13 @@ func (x *Exec) atLoopHead(st *State, la *loopAnalysis, head, from *ssa.BasicBloc
 	for _, c := range spec.Invariants {
 		st.Assume(x.evalBool(env, c.Expr))
 	}
+	if f.Fn == x.Fn && f.Caller == nil && x.FC != nil {
+		x.runGhosts(st, env, fmt.Sprintf("loop:%d", ord))
+	}
 	le := &loopEntry{}
+	if f.Fn == x.Fn && f.Caller == nil && x.FC != nil && !x.frame().all {
+		le.snap = st.snapshot()
+	}
 	if spec.Decreases != nil {
 		le.decr = x.evalIdx(env, spec.Decreases.Expr)
 	}
@@ -550,24 +577,36 @@ func (x *Exec) havocLoop(st *State, la *loopAnalysis, head *ssa.BasicBlock, spec
 		nv := st.freshValue("lv$"+cell.Name, cell.Ty)
 		st.Cells[cell] = nv
 	}
-	if mod.allHeap {
-		st.havocAllHeap()
-	} else {
-		keys := make([]string, 0, len(mod.heap))
+	if st.Frame.Fn == x.Fn && st.Frame.Caller == nil && x.FC != nil {
+		var hk, mk []string
 		for k := range mod.heap {
-			keys = append(keys, k)
+			hk = append(hk, k)
 		}
-		sort.Strings(keys)
-		for _, k := range keys {
-			st.havocHeapPrefix(k)
-		}
-	}
-	if mod.allMem {
-		st.havocAllMem()
-	} else {
+		sort.Strings(hk)
 		for k := range mod.mems {
-			if m, ok := st.Mems[k]; ok {
-				st.Mems[k] = Fresh("Mem$"+k, m.Sort)
+			mk = append(mk, k)
+		}
+		x.havocFramed(st, hk, mod.allHeap, mk, mod.allMem)
+	} else {
+		if mod.allHeap {
+			st.havocAllHeap()
+		} else {
+			keys := make([]string, 0, len(mod.heap))
+			for k := range mod.heap {
+				keys = append(keys, k)
+			}
+			sort.Strings(keys)
+			for _, k := range keys {
+				st.havocHeapPrefix(k)
+			}
+		}
+		if mod.allMem {
+			st.havocAllMem()
+		} else {
+			for k := range mod.mems {
+				if m, ok := st.Mems[k]; ok {
+					st.Mems[k] = Fresh("Mem$"+k, m.Sort)
+				}
 			}
 		}
 	}
